@@ -470,7 +470,37 @@ func runMerge(c *Ctx, prop string) {
 		c.Unk(rule, fnm, "take", cmpPos, "no 'matched index' variable (sentinel, or the injected index on the equal edge) found: merge shape not recognised")
 		return
 	}
-	if sentinel >= 0 && !directMode {
+	// found-flag form: the index variable has no reserved value; whether a match was found is kept
+	// in a separate boolean that is set to true exactly where the index is taken
+	var foundFlag *ssa.Phi
+	if sentinel >= 0 && !directMode && !helperMode {
+		if dph, ok := dup.(*ssa.Phi); ok {
+			for _, ins := range dph.Block().Instrs {
+				fp, isPhi := ins.(*ssa.Phi)
+				if !isPhi || fp == dph || len(fp.Edges) != len(dph.Edges) {
+					continue
+				}
+				if bt, ok := fp.Type().Underlying().(*types.Basic); !ok || bt.Kind() != types.Bool {
+					continue
+				}
+				agree := true
+				for i, e := range fp.Edges {
+					b, known := constBool(e)
+					taken := dph.Edges[i] != dph && func() bool { _, isC := constInt(dph.Edges[i]); return !isC }()
+					if e == ssa.Value(fp) && dph.Edges[i] == ssa.Value(dph) {
+						continue // both carried unchanged
+					}
+					if !known || b != taken {
+						agree = false
+					}
+				}
+				if agree {
+					foundFlag = fp
+				}
+			}
+		}
+	}
+	if sentinel >= 0 && !directMode && foundFlag == nil {
 		c.Bad(rule, fnm, "take", dup.Pos(), fmt.Sprintf("the 'no match' sentinel %d is a valid index of the injected list", sentinel))
 		return
 	}
@@ -480,8 +510,15 @@ func runMerge(c *Ctx, prop string) {
 	if directMode {
 		noMatchFrom, noMatchTo, matchFrom, matchTo = dExitFrom, dExitTo, dEqFrom, dEqTo
 	}
+	if foundFlag != nil {
+		for _, r := range refs(foundFlag) {
+			if iff, ok := r.(*ssa.If); ok && iff.Cond == ssa.Value(foundFlag) {
+				noMatchFrom, matchTo, noMatchTo = iff.Block(), iff.Block().Succs[0], iff.Block().Succs[1]
+			}
+		}
+	}
 	for _, r := range refs(dup) {
-		if directMode {
+		if directMode || foundFlag != nil {
 			break
 		}
 		bo, ok := r.(*ssa.BinOp)
